@@ -1,0 +1,16 @@
+//go:build verif && gc && !purego
+
+package chacha20poly1305
+
+import "golang.org/x/sys/cpu"
+
+// VerifCPUHasAVX2 reports whether this CPU can run the assembly path.
+func VerifCPUHasAVX2() bool { return cpu.X86.HasSSSE3 && cpu.X86.HasAVX2 && cpu.X86.HasBMI2 }
+
+// VerifSetAVX2 selects the assembly (true) or generic (false) AEAD path and
+// returns the previous setting. Selecting true on a CPU without AVX2 is refused.
+func VerifSetAVX2(on bool) (prev bool) {
+	prev = useAVX2
+	useAVX2 = on && VerifCPUHasAVX2()
+	return prev
+}
